@@ -12,6 +12,7 @@ CONSTANTS
   RecvApis = {"complete", "startread", "typed"}
   WriteSizes = {1, 3, 4096, 1048560, 1048576, 2097157}
   StrSizes = {}
+  StrBytesSizes = {}
   ReadSizes = {0, 2}
   MaxMsgs = 2
   MaxWrites = 2
